@@ -28,7 +28,7 @@ RULE = ('(a) sequential operation sequences on both stores incl. failing ones (i
         'acquire/release pair was observed')
 REQUIRED = ['seq:cases', 'seq:store:shared', 'seq:store:disjoint', 'calls-judged', 'failpoint:runs', 'failpoint:fired',
             'sched:schedules', 'sched:preempted', 'sched:final-state-checked', 'invariant-hook-evaluations',
-            'sched:lock-contended']
+            'sched:lock-contended', 'first-use:schedules', 'first-use:preempted', 'stress:runs', 'sched:later-allocations-checked']
 ASSUMPTIONS = ['pre-emption is explored at source lines of fim/graph/networkx_property_graph.py and '
                'networkx_property_graph_disjoint.py (as the property states); switches inside networkx / networkx_query calls are '
                'not explored',
@@ -839,6 +839,12 @@ def stress_real_threads(ctx):
 
 def _run_workload(ctx):
     if ctx.shard == 0:
+        # (cheap and exhaustive: done first, so that a loaded machine cannot squeeze it out of the time budget)
+        env0 = Env(ctx)
+        try:
+            explore_first_use(ctx, env0)
+        finally:
+            env0.close()
         stress_real_threads(ctx)
     env = Env(ctx)
     try:
@@ -852,8 +858,6 @@ def _run_workload(ctx):
         try:
             run_sequential(ctx, env, ctx.pick(150, 1500))
             run_failpoints(ctx, env)
-            if ctx.shard == 0:
-                explore_first_use(ctx, env)
             explore(ctx, env, ctx.pick(6, 60))
             ctx.count('sched:refused-imports-inside-threads', REFUSED_IN_THREAD[0])
         finally:
